@@ -1467,9 +1467,12 @@ pub fn gen_program(rng: &mut Rng, idx: usize) -> Prog {
             g.floor = d0;
             // body: uses the counter for memory growth, then a few stack-neutral operations
             if g.rng.chance(60) {
-                // MSTORE(counter*32 + base, counter)
+                // MSTORE(counter*stride + base, counter): word by word, unaligned, or in big strides
                 let base = g.rng.below(6) * 32 + g.rng.below(2) * 7;
-                g.b(&[0x80, 0x80, 0x60, 0x20, 0x02]); // DUP1 DUP1 PUSH1 32 MUL
+                let stride = *g.rng.pick(&[32u64, 32, 32, 33, 1000, 4096]);
+                g.b(&[0x80, 0x80]); // DUP1 DUP1
+                g.b(&push_u(stride));
+                g.b(&[0x02]); // MUL
                 g.b(&push_u(base));
                 g.b(&[0x01, 0x52]); // ADD MSTORE
             }
